@@ -26,6 +26,9 @@ CHECK_DEADLOCK FALSE
 _USED = [0]
 
 
+_NOISE = np.random.default_rng(1010)
+
+
 def used_object(a, dt):
     """an AccSignal that already held ANOTHER record of the same length whose durations / cumulative statistics were
     computed, and was then given `a` (history: results must describe the record the object holds now)"""
@@ -50,12 +53,23 @@ def used_object(a, dt):
             im.calc_brac_dur(o, 0.0, se=True)
         except Exception:
             pass
+        try:
+            # ... and was corrected over a time window / re-based while it held that earlier record
+            if _USED[0] % 4 == 0 and len(other) >= 12 and float(np.max(np.abs(other))) > 0:
+                t_end = (len(other) - 1) * dt
+                o.set_zero_residual_displacement_and_velocity(timezone=(0.3 * t_end, 0.9 * t_end))
+            elif _USED[0] % 4 == 2:
+                o.rebase_displacement()
+        except Exception:
+            pass
         if n % 2 or len(other) != n:
             o.reset_values(np.array(a, dtype=float))
         else:
             o.add_series(np.asarray(a, dtype=float) - o.values)
             if not np.array_equal(np.asarray(o.values, dtype=float), np.asarray(a, dtype=float)):
                 o.reset_values(np.array(a, dtype=float))       # other + (a - other) is not always a: the record must be exactly a
+        if _USED[0] % 2:
+            gen.asig_noise(_NOISE, o)           # other public functions applied to the object just before the measured call
     return o
 
 
